@@ -16,6 +16,8 @@ import (
 
 	"verifharness/lib"
 
+	gologging "gopkg.in/op/go-logging.v1"
+
 	"github.com/thought-machine/please/src/core"
 	"github.com/thought-machine/please/src/plz"
 )
@@ -140,15 +142,21 @@ type observed struct {
 	Labels []string `json:"labels"` // package names of the labels findOriginalTask added, sorted (prefix == "" only)
 }
 
+var baseConfig *core.Configuration
+
 func config(in *input) *core.Configuration {
-	c := core.DefaultConfiguration()
+	if baseConfig == nil {
+		baseConfig = core.DefaultConfiguration()
+	}
+	c := *baseConfig // shallow copy: only the three Parse lists below differ between cases
 	c.Parse.BuildFileName = append([]string{}, in.BuildFileNames...)
 	c.Parse.BlacklistDirs = append([]string{}, in.Blacklist...)
 	c.Parse.ExperimentalDir = append([]string{}, in.Experimental...)
-	return c
+	return &c
 }
 
 var scratch, linkTarget string
+var state *core.BuildState
 var serial int
 
 func run(in *input, withLabels bool) observed {
@@ -168,7 +176,11 @@ func run(in *input, withLabels bool) observed {
 		obs.Files = append(obs.Files, name)
 	}
 	if withLabels {
-		state := core.NewBuildState(config(in))
+		// one BuildState for the whole run (each one starts a results forwarder that is never stopped)
+		if state == nil {
+			state = core.NewBuildState(config(in))
+		}
+		state.Config = config(in)
 		before := state.NumActive()
 		pkg := in.Root
 		if pkg == "." {
@@ -662,6 +674,7 @@ func main() {
 			"temporary directory; configurations = BUILD file name set x 0-3 blacklist entries (names and paths) x 0-2 experimental dirs; the directory asked " +
 			"for is the root or a random directory of the tree. Real plz.FindAllBuildFiles and (hook) findOriginalTask run inside the tree. " +
 			"distinct = distinct (configuration, directory, tree); non-trivial = >= 2 directories with a BUILD file under the directory and >= 1 excluded directory")
+		gologging.SetLevel(gologging.CRITICAL, "plz")
 		var err error
 		scratch, err = os.MkdirTemp("", "c22-")
 		must(err)
